@@ -210,13 +210,17 @@ func (c *Ctx) ruleDocURL(prefixVals map[string]bool) {
 							continue
 						}
 					}
-					m := pageRx.FindStringSubmatch(P.Desc(pv))
-					if m == nil {
-						continue
-					}
-					for _, l := range P.BlockGuards(b) {
-						if call := P.litCallTo(l, "strings.HasPrefix"); call != nil && l.Pos && P.Desc(call.Call.Args[0]) == codeD {
-							covered[constString(call.Call.Args[1])] = m[1]
+					// the page may be a variable assigned in an if / else-if chain: each way it gets its value
+					for _, vc := range P.ValueCases(pv, 0) {
+						m := pageRx.FindStringSubmatch(vc.Desc)
+						if m == nil {
+							continue
+						}
+						gs := append(append([]Lit{}, vc.Guards...), P.BlockGuards(b)...)
+						for _, l := range gs {
+							if call := P.litCallTo(l, "strings.HasPrefix"); call != nil && l.Pos && P.Desc(call.Call.Args[0]) == codeD {
+								covered[constString(call.Call.Args[1])] = m[1]
+							}
 						}
 					}
 				}
@@ -236,12 +240,17 @@ func (c *Ctx) ruleDocURL(prefixVals map[string]bool) {
 				continue
 			}
 			pd := P.Desc(call.Call.Args[1])
-			m := regexp.MustCompile(`^field\((elem\(global\(codes\.([A-Za-z0-9_]+)\)\))\.[^)]*\.([A-Za-z0-9_]+)\)$`).FindStringSubmatch(pd)
+			if os.Getenv("GGV_DEBUG_DOCURL") != "" {
+				fmt.Println("DOCURL pd=", pd, " ret=", P.Desc(r.Results[0]))
+			}
+			// field(<element of global codes.T>.<struct type>.<prefix field>): the element may be the range value
+			// of a slice, or &T[i] / T[i] of an array or slice walked by index
+			m := regexp.MustCompile(`^field\((elem(?:\[\?\])?\(&?(?:load\()?global\((?:[^()]* )?codes\.([A-Za-z0-9_]+)\)\)?\))\..*\.([A-Za-z0-9_]+)\)$`).FindStringSubmatch(pd)
 			if m == nil {
 				continue
 			}
 			elem, table, prefixField := m[1], m[2], m[3]
-			m2 := regexp.MustCompile(`field\(`+regexp.QuoteMeta(elem)+`\.[^)]*\.([A-Za-z0-9_]+)\)`).FindAllStringSubmatch(P.Desc(r.Results[0]), -1)
+			m2 := regexp.MustCompile(`field\(`+regexp.QuoteMeta(elem)+`\.[^()]*\.([A-Za-z0-9_]+)\)`).FindAllStringSubmatch(P.Desc(r.Results[0]), -1)
 			pageField := ""
 			for _, x := range m2 {
 				if x[1] != prefixField {
@@ -315,11 +324,16 @@ func (c *Ctx) stringTable(table, keyField, valField string) map[string]string {
 					if !ok {
 						continue
 					}
-					sl, ok := cp.TypesInfo.TypeOf(lit).Underlying().(*types.Slice)
-					if !ok {
+					var elemT types.Type
+					switch lt := cp.TypesInfo.TypeOf(lit).Underlying().(type) {
+					case *types.Slice:
+						elemT = lt.Elem()
+					case *types.Array:
+						elemT = lt.Elem()
+					default:
 						continue
 					}
-					st, ok := sl.Elem().Underlying().(*types.Struct)
+					st, ok := elemT.Underlying().(*types.Struct)
 					if !ok {
 						continue
 					}
